@@ -528,6 +528,11 @@ class SseText(Contract):
         "comment_and_id_lines": ([": keepalive\nid: 7\nevent: message\ndata: ", 0, "\n\n"], 1, [0]),
         "other_event_type_is_not_a_message": (["event: ping\ndata: ", 0, "\n\n"], 1, []),
         "no_event_field": (["data: ", 0, "\n\n"], 1, [0]),
+        # thorough tier only
+        "three_events_mixed_line_ends": (["event: message\r\ndata: ", 0, "\r\n\r\nevent: message\ndata: ", 1,
+                                          "\n\n: c\nevent: message\ndata: ", 2, "\n\n"], 3, [0, 1, 2]),
+        "response_event_type": (["event: response\ndata: ", 0, "\n\n"], 1, [0]),
+        "retry_and_unknown_fields": (["retry: 10\nfoo: bar\nevent: message\ndata: ", 0, "\n\n"], 1, [0]),
         "no_space_after_data_colon": (["event: message\ndata:", 0, "\n\n"], 1, [0]),
     }
     FINDING = {"no_event_field": "sse-event-without-event-field-dropped",
@@ -585,8 +590,12 @@ class SseText(Contract):
 _c11_contracts = C11.contracts
 
 
+THOROUGH_SHAPES = ("three_events_mixed_line_ends", "response_event_type", "retry_and_unknown_fields")
+
+
 def _contracts11(self):
-    return _c11_contracts(self) + [SseText(s) for s in SseText.SHAPES]
+    shapes = [s for s in SseText.SHAPES if s not in THOROUGH_SHAPES or self.tier == "thorough"]
+    return _c11_contracts(self) + [SseText(s) for s in shapes]
 
 
 C11.contracts = _contracts11
